@@ -86,6 +86,15 @@ def run_history(ctx, stream: bytes, ids13, cuts, schedule, garbage_free, case, e
                 ctx.fail("parser.exactly_once", "returned_list_differs", how, case, at=label,
                          observed=[p.hex()[:40] for p in returned][:6], expected=[p.hex()[:40] for p in want_now][:6])
                 return False
+        else:
+            # with filler between packets: the queue holds exactly the not-yet-complete tail - the filler in front of an incomplete
+            # packet has been skipped, what stays is the start of that packet (or fewer than 6 octets that may still become one)
+            want_now, consumed = split_stream(bytes(appended), set(ids13))
+            ctx.ev("parser.queue_is_the_tail")
+            if returned == want_now and tail != bytes(appended[consumed:]):
+                ctx.fail("parser.queue_is_the_tail", "queue_differs_from_unconsumed_tail", "filler_retained" if len(tail) > len(appended) - consumed else "octets_missing", case, at=label,
+                         queue=tail.hex()[:80], expected=bytes(appended[consumed:]).hex()[:80])
+                return False
         return True
 
     variant = case.get("chunk_variant", 0)
@@ -186,6 +195,11 @@ def make_packet(r, ids13, n=None):
     pid = r.choice(ids13)
     n = n if n is not None else r.choice((7, 7, 8, 9, 12, 13, 20, 40, r.randrange(7, 41)))
     data = bytearray(r.randbytes(n - 6))
+    if len(data) >= 4 and r.random() < 0.15:
+        from spverif.core.util import harvested_constants
+        c = r.choice(harvested_constants())[:len(data)]
+        k = r.randrange(0, len(data) - len(c) + 1)
+        data[k:k + len(c)] = c          # payload carrying a marker / constant the code under test knows
     if len(data) >= 2 and r.random() < 0.3:
         k = r.randrange(0, len(data) - 1)
         data[k:k + 2] = (r.choice(ids13) | (r.getrandbits(3) << 13)).to_bytes(2, "big")   # payload that looks like a packet start
@@ -354,7 +368,7 @@ def conclude(ctx):
     cc = ctx.tables.get("cut_classes", {})
     for c in ["in_header@1", "in_header@2", "in_header@3", "in_header@4", "in_header@5", "after_header", "mid_payload", "one_before_end", "packet_boundary"]:
         ctx.require(cc.get(c, 0) > 0, f"cut class {c} never observed")
-    for m in ("parser.returned_objects_stable", "parser.ids_from_objects", "parser.call", "parser.conservation", "parser.exactly_once", "parser.final", "parser.idempotent"):
+    for m in ("parser.queue_is_the_tail", "parser.returned_objects_stable", "parser.ids_from_objects", "parser.call", "parser.conservation", "parser.exactly_once", "parser.final", "parser.idempotent"):
         ctx.require(ctx.monitors.get(m, {}).get("evaluations", 0) > 0, f"monitor {m} never evaluated")
     for s in SCHEDULES:
         ctx.require(ctx.classes.get(f"frag/{s}", 0) > 0 and ctx.classes.get(f"garbage/{s}", 0) > 0, f"schedule {s} not exercised")
